@@ -61,7 +61,7 @@ pub fn build_item(tape: &[u8], cfg: &CaseCfg, n_payloads: usize, stats: &mut Gen
             expects.push(Expectation::RoundTrip { p });
         }
     }
-    Some(Item { base, expects, tape: tape.to_vec(), nt, labels })
+    Some(Item { base, expects, tape: tape.to_vec(), nt, labels, depends: vec![] })
 }
 
 struct Family {
